@@ -18,6 +18,7 @@ done
 for i in $(seq 0 $((N-1))); do
   mine=()
   for j in "${!IDS[@]}"; do if [ $((j % N)) -eq $i ]; then mine+=("${IDS[$j]}"); fi; done
+  if [ ${#mine[@]} -eq 0 ]; then echo '{}' > /tmp/seedw/$i/verif/seeded/RESULTS.json; : > /tmp/seedw/$i.log; continue; fi
   ( cd /tmp/seedw/$i/verif && echo '{}' > seeded/RESULTS.json && PDS_REPO=/tmp/seedw/$i/repo python3 tools/run_seeded.py "${mine[@]}" > /tmp/seedw/$i.log 2>&1 ) &
 done
 wait
